@@ -256,9 +256,34 @@ Definition minit : mstate := mkm [] [] [] [] [].
 Definition tput {A} (k : Z) (v : A) (t : list (Z * A)) : list (Z * A) :=
   match tget k t with Some _ => tset k v t | None => tins k v t end.
 
-(** Vdetach's write-back: a marked vgroup is packed and stored under (DFTAG_VG, oref) *)
+(** The element store under the vgroup records (hfile.c), as far as Vdetach / Load_vfile / Vdelete use it: an element
+    is its byte content, whose length is the length recorded in its descriptor.
+    Hputelement = Hstartwrite + Hwrite + Hendaccess.  On an element that does not exist (or whose descriptor
+    HDreuse_tagref has just invalidated) Hstartwrite gives it exactly the requested length (Hsetlength).  On an
+    existing element nothing is resized: the bytes are written over the beginning, the old tail and the old length
+    stay; a longer write fails (DFE_BADSEEK, the element is not appendable). *)
+Definition Hputelement (old : option bytes) (new : bytes) : option bytes :=
+  match old with
+  | None => Some new
+  | Some o => if (length o <? length new)%nat then None else Some (new ++ skipn (length new) o)
+  end.
+(** what Vdetach hands to Hputelement as "the element now": a vgroup that came from the file (new_vg = 0) gets its
+    descriptor invalidated first (HDcheck_tagref = 1 -> HDreuse_tagref), a vgroup created in this session is written
+    straight away *)
+Definition element_before_put (file : list (Z * bytes)) (g : VGROUP) : option bytes :=
+  if new_vg g then tget (oref g) file else None.
+Definition write_fails (file : list (Z * bytes)) (g : VGROUP) : bool :=
+  marked g && match Hputelement (element_before_put file g) (snd (vpackvg g)) with Some _ => false | None => true end.
+(** Vdetach's write-back: a marked vgroup is packed and stored under (DFTAG_VG, oref); when the write fails the
+    vgroup stays marked and nothing changes *)
 Definition write_back (file : list (Z * bytes)) (g : VGROUP) : list (Z * bytes) * VGROUP :=
-  if marked g then let '(ver, b) := vpackvg g in (tput (oref g) b file, set_saved g ver) else (file, g).
+  if marked g then
+    let '(ver, b) := vpackvg g in
+    match Hputelement (element_before_put file g) b with
+    | Some e => (tput (oref g) e file, set_saved g ver)
+    | None => (file, g)
+    end
+  else (file, g).
 (** Vlone / VSlone attach every vgroup with "r" and detach it again: an attached one (nattach > 0) keeps its
     access (MAX) and is written back when marked; an unattached one gets access 'r', marked 0 *)
 Fixpoint lone_visits (hg : list (Z * Z)) (file : list (Z * bytes)) (t : list (Z * VGROUP))
@@ -423,7 +448,8 @@ Definition mstep (s : mstate) (o : op) : mstate * res :=
       match tget h (m_hg s) with None => (s, RFail) | Some r =>
         match tget r (m_vg s) with None => (s, RUnspec) | Some g =>
           let '(f, g') := write_back (m_file s) g in
-          (mkm f (tset r g' (m_vg s)) (m_vs s) (tdel h (m_hg s)) (m_hs s), ROk [] None) end end
+          (mkm f (tset r g' (m_vg s)) (m_vs s) (tdel h (m_hg s)) (m_hs s),
+           if write_fails (m_file s) g then RFail else ROk [] None) end end
   | OSetName h n => m_edit s h (fun r g =>
       if negb (name_ok n) then (s, RUnspec)
       else if 65535 <? zlen (cstr n) then (s, RFail)                         (* name_len > UINT16_MAX *)
@@ -565,6 +591,10 @@ Definition mstep (s : mstate) (o : op) : mstate * res :=
   | OGetNext h id => m_with s h (fun _ g => match Vgetnext g id with Some k => mok s [k] | None => (s, RFail) end)
   | OMsize h => m_with s h (fun _ g => mok s [nvelt g; msize g])
   | ORawVg r => match tget r (m_file s) with Some b => (s, ROk [] (Some b)) | None => (s, RFail) end
-  | OPutRaw r b => if u16 r then (mkm (tput r b (m_file s)) (m_vg s) (m_vs s) (m_hg s) (m_hs s), ROk [] None)
+  | OPutRaw r b => if u16 r then
+                     match Hputelement (tget r (m_file s)) b with
+                     | Some e => (mkm (tput r e (m_file s)) (m_vg s) (m_vs s) (m_hg s) (m_hs s), ROk [] None)
+                     | None => (s, RFail)
+                     end
                    else (s, RUnspec)
   end.
